@@ -142,10 +142,13 @@ def true_objects(c, n):
 
 
 # ------------------------------------------------------------------------------------------ parameter bookkeeping
-def child_params(c, mode, pre, shift=0):
+def child_params(c, mode, pre, shift=0, atom=False):
     """Statistics of the child whose objects are w[shift:] for parent objects w having `pre` (child's prefix) there.
     Parent statistic (l, f) restricted to the child part is (l, max(0, f - shift)).
-    Returns (child params, mapping parent name -> child name) ; a dropped statistic has no entry."""
+    Returns (child params, mapping parent name -> child name) ; a dropped statistic has no entry.
+    Mode words: rename / merge / drop (a statistic identically zero on the child - its letter is forbidden, or the child is
+    the one-word class `pre` - is not tracked by it) / track (a child that is not an atom tracks one more statistic than
+    the parent: no parent statistic maps to it)."""
     out, mapping, groups = [], {}, {}
     forbidden = {p for p in c.patterns if len(p) == 1}
     cyc = {"k": "j", "j": "m", "m": "k"}
@@ -153,7 +156,7 @@ def child_params(c, mode, pre, shift=0):
     for n, l, f in c.params:
         cf = max(0, f - shift)
         inside = pre[cf:].count(l) if cf <= len(pre) else 0
-        if "drop" in mode and l in forbidden and inside == 0:
+        if "drop" in mode and (l in forbidden or atom) and inside == 0:
             continue  # identically zero on this child
         # two statistics coincide on every object of the child iff same letter and same effective start beyond/in the prefix
         key = (l, inside, cf if cf > len(pre) else None) if "merge" in mode else (n,)
@@ -164,6 +167,10 @@ def child_params(c, mode, pre, shift=0):
         groups[key] = cn
         out.append((cn, l, cf))
         mapping[n] = cn
+    if "track" in mode and not atom and len(out) < 2:
+        l = c.alphabet[-1]
+        if (l, 0) not in {(x[1], x[2]) for x in out} and "t_0" not in {x[0] for x in out}:
+            out.append(("t_0", l, 0))
     return tuple(out), mapping
 
 
@@ -190,9 +197,13 @@ class _ModeMixin:
 
 class Expand(_ModeMixin, DisjointUnionStrategy):
     def _kids(self, c):
+        """mode word `last`: the bare prefix comes last instead of first (so that child 0 may be empty)"""
         res = []
-        for pre, jp in [(c.prefix, True)] + [(c.prefix + a, False) for a in c.alphabet]:
-            cp, m = child_params(c, self.mode, pre)
+        order = [(c.prefix, True)] + [(c.prefix + a, False) for a in c.alphabet]
+        if "last" in self.mode:
+            order = order[1:] + order[:1]
+        for pre, jp in order:
+            cp, m = child_params(c, self.mode, pre, 0, jp)
             res.append((PW(pre, c.patterns, c.alphabet, jp, cp), m))
         return res
 
@@ -204,17 +215,24 @@ class Expand(_ModeMixin, DisjointUnionStrategy):
     def extra_parameters(self, c, children=None):
         return tuple(m for _, m in self._kids(c))
 
+    def can_be_equivalent(self):
+        return "track" not in self.mode  # a child's additional statistic cannot be recovered from the parent's terms
+
+    def is_two_way(self, comb_class):
+        return "track" not in self.mode and "oneway" not in self.mode
+
+    def is_reversible(self, comb_class):
+        return "track" not in self.mode and "oneway" not in self.mode
+
     def formal_step(self):
         return f"expand {self.mode}".strip()
 
     def forward_map(self, c, w, children=None):
         if children is None:
             children = self.decomposition_function(c)
-        if len(w) == len(c.prefix):
-            return (W(w),) + (None,) * (len(children) - 1)
-        for i, ch in enumerate(children[1:]):
-            if w.startswith(ch.prefix):
-                return (None,) * (i + 1) + (W(w),) + (None,) * (len(children) - i - 2)
+        for i, ch in enumerate(children):
+            if (len(w) == len(c.prefix)) == ch.just_prefix and w.startswith(ch.prefix):
+                return (None,) * i + (W(w),) + (None,) * (len(children) - i - 1)
         raise ValueError("word not in class")
 
 
@@ -236,7 +254,7 @@ class Peel(_ModeMixin, CartesianProductStrategy):
         s = safe_front(c)
         res = []
         for pre, jp, sh in [(c.prefix[:s], True, 0), (c.prefix[s:], False, s)]:
-            cp, m = child_params(c, self.mode.replace("drop", ""), pre, sh)
+            cp, m = child_params(c, self.mode.replace("drop", "").replace("track", ""), pre, sh)
             res.append((PW(pre, c.patterns, c.alphabet, jp, cp), m))
         return res
 
@@ -364,7 +382,7 @@ class Rot(_ModeMixin, DisjointUnionStrategy):
             m = {n: names[i] for i, (n, _, _) in enumerate(order)}
         else:
             tmp = PW(c.prefix.translate(t), [], c.alphabet, c.just_prefix, tr)
-            cp, m = child_params(tmp, self.mode.replace("drop", "").replace("merge", ""), tmp.prefix)
+            cp, m = child_params(tmp, self.mode.replace("drop", "").replace("merge", "").replace("track", ""), tmp.prefix)
         return PW(c.prefix.translate(t), [p.translate(t) for p in c.patterns], c.alphabet, c.just_prefix, cp), m
 
     def decomposition_function(self, c):
@@ -846,4 +864,4 @@ PARAM_SETS = [
     [("k_0", "a", 0), ("k_1", "a", 0), ("k_2", "b", 0)],
     [("k_0", "b", 1)],
 ]
-MODES = ["", "rename", "merge", "merge rename", "drop", "drop merge rename"]
+MODES = ["", "rename", "merge", "merge rename", "drop", "drop merge rename", "drop rename last", "last merge", "track", "track rename last"]
